@@ -24,42 +24,89 @@ theorem status_preserved (h : processResponse rc o = .ok r) :
   · exact ⟨ok.status, ok.reason, ok.minor⟩
 
 theorem header_only_no_body (h : processResponse rc o = .ok r) (hb : bodiless rc.method o.status = true) :
-    (r.framing = .none ∨ r.framing = .unterminatedHead) ∧ r.body = .dropped := by
+    r.framing = .none ∧ r.body = .dropped := by
   obtain ⟨g, hread, hcase⟩ := processResponse_ok h
   obtain ⟨ok⟩ := readResponse_some hread
   rw [← headerOnly_eq_bodiless, ← ok.status] at hb
   rcases hcase with ⟨_, rfl⟩ | ⟨hho, rfl⟩
-  · refine ⟨?_, rfl⟩
-    have hfr : (writeHO rc g).framing =
-        if g.trailer.isEmpty then Framing.none else Framing.unterminatedHead := rfl
-    rw [hfr]
-    split
-    · exact Or.inl rfl
-    · exact Or.inr rfl
+  · exact ⟨rfl, rfl⟩
   · rw [hb] at hho; exact absurd hho (by simp)
 
+/-- what `Response.Write` is handed, in terms of the six facts `frameCore` looks at -/
+theorem ReadOK.frame_full {g : GoResp} (ok : ReadOK rc o g) (hho : headerOnly rc.method g.status = false) :
+    frameForClient rc g =
+      frameCore (decide (rc.reqMinor ≥ 1)) (decide (g.minor ≥ 1)) g.chunked (g.close || rc.reqClose)
+        g.uncompressed g.contentLength ∧
+    (g.contentLength = -1 ∨ 0 ≤ g.contentLength) ∧
+    (g.chunked = true → decide (g.minor ≥ 1) = true) ∧
+    (g.contentLength < 0 → g.chunked = false → g.uncompressed = false → g.close = true) := by
+  have hho' : headerOnly rc.method o.status = false := by rw [← ok.status]; exact hho
+  refine ⟨frameForClient_full hho, ?_, ?_, ?_⟩
+  · have hl := ok.contentLength_full hho'
+    rw [hl]
+    split
+    · exact Or.inl rfl
+    · split
+      · exact Or.inl rfl
+      · split
+        · exact Or.inr (Int.natCast_nonneg _)
+        · exact Or.inl rfl
+  · intro hc
+    have hm := ok.chunked_minor hc
+    rw [← ok.minor] at hm
+    simp only [decide_eq_true_eq]
+    omega
+  · intro hlen hch hunc
+    exact ok.close_of_unknown hho' hlen hch hunc
+
+/-- a response that is neither chunked nor has a length is close-delimited: the connection is closed -/
 theorem eof_closes (h : processResponse rc o = .ok r) (hf : r.framing = .eof) : r.keepAlive = false := by
-  obtain ⟨g, _, hcase⟩ := processResponse_ok h
-  rcases hcase with ⟨_, rfl⟩ | ⟨_, rfl⟩
-  · have : (writeHO rc g).framing = if g.trailer.isEmpty then Framing.none else Framing.unterminatedHead := rfl
-    rw [this] at hf
-    split at hf <;> exact absurd hf (by simp)
+  obtain ⟨g, hread, hcase⟩ := processResponse_ok h
+  obtain ⟨ok⟩ := readResponse_some hread
+  rcases hcase with ⟨_, rfl⟩ | ⟨hho, rfl⟩
+  · exact absurd hf (by simp [writeHO])
   · have hfr : (writeFull rc g).framing = wFraming rc g := rfl
     rw [hfr] at hf
     unfold wFraming at hf
     split at hf
     · exact absurd hf (by simp)
-    · split at hf
+    · rename_i hwc
+      split at hf
       · exact absurd hf (by simp)
-      · split at hf
-        · rename_i hc
-          show (!wClose rc g) = false
-          rw [hc]; rfl
-        · exact absurd hf (by simp)
+      · rename_i hlen
+        obtain ⟨hF, hL, hcb, hk⟩ := ok.frame_full hho
+        show (!wClose rc g) = false
+        have hwc' : wChunked rc g = false := by simpa using hwc
+        have hlen' : wLen rc g < 0 := by omega
+        unfold wChunked at hwc'
+        unfold wLen at hlen'
+        unfold wClose pipeClose wLen wChunked
+        rw [hF] at hwc' hlen' ⊢
+        rw [frameCore_unframed_closes hL hcb hk hwc' hlen']
+        rfl
+
+/-- an HTTP/1.0 client is never sent a chunked body -/
+theorem http10_never_chunked (h0 : rc.reqMinor = 0) (h : processResponse rc o = .ok r) :
+    ¬ isChunked r.framing := by
+  obtain ⟨g, _, hcase⟩ := processResponse_ok h
+  rcases hcase with ⟨_, rfl⟩ | ⟨hho, rfl⟩
+  · exact fun hc => hc
+  · have hfr : (writeFull rc g).framing = wFraming rc g := rfl
+    rw [hfr]
+    have hwc : wChunked rc g = false := by
+      unfold wChunked
+      rw [frameForClient_full hho, h0]
+      have : decide ((0 : Nat) ≥ 1) = false := by decide
+      rw [this, frameCore_http10]
+      rfl
+    unfold wFraming
+    rw [hwc]
+    simp only [Bool.false_eq_true, if_false]
+    split <;> exact fun hc => hc
 
 end basic
 
-/-! ### the two defect classes, seen from the input -/
+/-! ### what was read, seen from the input -/
 
 section classes
 variable {rc : ReqCtx} {o : OriginResp} {g : GoResp}
@@ -188,109 +235,62 @@ theorem ReadOK.originTrailers (ok : ReadOK rc o g) (ht : g.trailer ≠ []) : ori
 
 end classes
 
-/-- F1 seen from the input: a bodiless response whose origin is chunked and declares trailers -/
-def InputF1 (rc : ReqCtx) (o : OriginResp) : Prop :=
-  bodiless rc.method o.status = true ∧ originChunked o = true ∧ originTrailers o ≠ []
-
-/-- F22 seen from the input: gzip solicited by the proxy itself, answered with gzip, on a response
-    that has a body and is not chunked (i.e. delimited by `Content-Length` or by close) -/
-def InputF22 (rc : ReqCtx) (o : OriginResp) : Prop :=
-  rc.solicitedGzip = true ∧ originGzip o = true ∧ bodiless rc.method o.status = false ∧
-    originChunked o = false
-
 section framing
 variable {rc : ReqCtx} {o : OriginResp} {r : ClientResp}
 
-theorem unterminated_is_F1 (h : processResponse rc o = .ok r) (hf : r.framing = .unterminatedHead) :
-    InputF1 rc o := by
-  obtain ⟨g, hread, hcase⟩ := processResponse_ok h
-  obtain ⟨ok⟩ := readResponse_some hread
-  rcases hcase with ⟨hho, rfl⟩ | ⟨_, rfl⟩
-  · have : (writeHO rc g).framing = if g.trailer.isEmpty then Framing.none else Framing.unterminatedHead := rfl
-    rw [this] at hf
-    split at hf
-    · exact absurd hf (by simp)
-    · rename_i hne
-      have hne' : g.trailer ≠ [] := by
-        intro h'; rw [h'] at hne; exact hne rfl
-      refine ⟨by rw [← headerOnly_eq_bodiless, ← ok.status]; exact hho,
-        ok.originChunked (ok.trailer_chunked hne'), ok.originTrailers hne'⟩
-  · have hfr : (writeFull rc g).framing = wFraming rc g := rfl
-    rw [hfr] at hf
-    unfold wFraming at hf
-    repeat' split at hf
-    all_goals exact absurd hf (by simp)
-
-theorem unframed_is_F22 (h : processResponse rc o = .ok r) (hf : r.framing = .unframed) :
-    InputF22 rc o := by
-  obtain ⟨g, hread, hcase⟩ := processResponse_ok h
-  obtain ⟨ok⟩ := readResponse_some hread
-  rcases hcase with ⟨_, rfl⟩ | ⟨hho, rfl⟩
-  · have : (writeHO rc g).framing = if g.trailer.isEmpty then Framing.none else Framing.unterminatedHead := rfl
-    rw [this] at hf
-    split at hf <;> exact absurd hf (by simp)
-  · have hfr : (writeFull rc g).framing = wFraming rc g := rfl
-    rw [hfr] at hf
-    unfold wFraming at hf
-    split at hf
-    · exact absurd hf (by simp)
-    · rename_i hwc
-      split at hf
-      · exact absurd hf (by simp)
-      · rename_i hlen
-        split at hf
-        · exact absurd hf (by simp)
-        · rename_i hcl
-          have hho' : headerOnly rc.method o.status = false := by rw [← ok.status]; exact hho
-          have hu : g.uncompressed = true := by
-            by_cases hu : g.uncompressed = true
-            · exact hu
-            · exfalso
-              have hu' : g.uncompressed = false := by simpa using hu
-              have hlen' : g.contentLength < 0 := by omega
-              have hchunk : g.chunked = false := by
-                by_cases hc : g.chunked = true
-                · exfalso
-                  have hm := ok.chunked_minor hc
-                  rw [← ok.minor] at hm
-                  apply hwc
-                  unfold wChunked
-                  simp only [hc, Bool.true_and, decide_eq_true_eq]
-                  omega
-                · simpa using hc
-              have hclose := ok.close_of_unknown hho' hlen' hchunk hu'
-              apply hcl
-              unfold wClose pipeClose
-              rw [hclose]
-              rfl
-          obtain ⟨h1, _, _⟩ := ok.gz_facts hu
-          have := gunzip_facts h (by
-            show (if g.uncompressed then BodyXform.gunzip else BodyXform.same) = _
-            rw [hu]; rfl)
-          refine ⟨this.1, this.2.1, this.2.2, ?_⟩
-          cases hoc : Resp.originChunked o with
-          | false => rfl
-          | true =>
-            exfalso
-            have hc := ok.chunked_of_origin hoc
-            have hm := ok.chunked_minor hc
-            rw [← ok.minor] at hm
-            apply hwc
-            unfold wChunked
-            simp only [hc, Bool.true_and, decide_eq_true_eq]
-            omega
-
-/-- keep-alive ⇒ the response is delimited, outside the two recorded defect classes -/
-theorem keepalive_delimited (h : processResponse rc o = .ok r) (h22 : ¬ InputF22 rc o)
-    (h1 : ¬ InputF1 rc o) (hk : r.keepAlive = true) :
+/-- keep-alive ⇒ the response is delimited on the wire -/
+theorem keepalive_delimited (h : processResponse rc o = .ok r) (hk : r.keepAlive = true) :
     r.framing = .none ∨ (∃ n, r.framing = .cl n) ∨ (∃ ts, r.framing = .chunked ts) := by
   cases hf : r.framing with
   | none => exact Or.inl rfl
   | cl n => exact Or.inr (Or.inl ⟨n, rfl⟩)
   | chunked ts => exact Or.inr (Or.inr ⟨ts, rfl⟩)
   | eof => rw [eof_closes h hf] at hk; exact absurd hk (by simp)
-  | unframed => exact absurd (unframed_is_F22 h hf) h22
-  | unterminatedHead => exact absurd (unterminated_is_F1 h hf) h1
+
+/-- a gunzipped body is sent chunked, or close-delimited on a connection that is closed -/
+theorem gunzip_framed (h : processResponse rc o = .ok r) (hb : r.body = .gunzip) :
+    (∃ ts, r.framing = .chunked ts) ∨ (r.framing = .eof ∧ r.keepAlive = false) := by
+  cases hf : r.framing with
+  | chunked ts => exact Or.inl ⟨ts, rfl⟩
+  | eof => exact Or.inr ⟨rfl, eof_closes h hf⟩
+  | none =>
+    exfalso
+    obtain ⟨g, _, hcase⟩ := processResponse_ok h
+    rcases hcase with ⟨_, rfl⟩ | ⟨hho, rfl⟩
+    · exact absurd hb (by simp [writeHO])
+    · have hfr : (writeFull rc g).framing = wFraming rc g := rfl
+      rw [hfr] at hf
+      unfold wFraming at hf
+      repeat' split at hf
+      all_goals exact absurd hf (by simp)
+  | cl n =>
+    exfalso
+    obtain ⟨g, hread, hcase⟩ := processResponse_ok h
+    obtain ⟨ok⟩ := readResponse_some hread
+    rcases hcase with ⟨_, rfl⟩ | ⟨hho, rfl⟩
+    · exact absurd hb (by simp [writeHO])
+    · have hu : g.uncompressed = true := by
+        by_cases hu : g.uncompressed = true
+        · exact hu
+        · have : (writeFull rc g).body = .same := by
+            show (if g.uncompressed then BodyXform.gunzip else BodyXform.same) = _
+            simp [hu]
+          rw [this] at hb
+          exact absurd hb (by simp)
+      have hlen : wLen rc g = -1 := by
+        have := ok.contentLength_full (by rw [← ok.status]; exact hho)
+        rw [hu] at this
+        have hg : g.contentLength = -1 := by simpa using this
+        unfold wLen
+        rw [frameForClient_full hho, hg]
+        exact frameCore_len_unknown ..
+      have hfr : (writeFull rc g).framing = wFraming rc g := rfl
+      rw [hfr] at hf
+      unfold wFraming at hf
+      rw [hlen] at hf
+      split at hf
+      · exact absurd hf (by simp)
+      · simp at hf
 
 end framing
 
@@ -384,39 +384,42 @@ variable {rc : ReqCtx} {g : GoResp}
 
 theorem names_lower_writeHO : ∀ e ∈ (writeHO rc g).fields, lower e.1 = e.1 := by
   intro e he
-  have := mem_names_mergeFields (fs := lowerFields (pipeHeader rc g)) he
-  unfold lowerFields at this
-  simp only [List.map_map, List.mem_map, Function.comp] at this
-  obtain ⟨e', _, hk⟩ := this
-  rw [← hk]
-  exact lower_idem _
+  have := mem_names_mergeFields (fs := lowerFields (pipeHeader rc g) ++ hoTrailerLine g) he
+  rw [List.map_append, List.mem_append] at this
+  rcases this with this | this
+  · unfold lowerFields at this
+    simp only [List.map_map, List.mem_map, Function.comp] at this
+    obtain ⟨e', _, hk⟩ := this
+    rw [← hk]
+    exact lower_idem _
+  · rw [hoTrailerLine_names g _ this]; decide
 
 theorem names_lower_writeFull : ∀ e ∈ (writeFull rc g).fields, lower e.1 = e.1 := by
   intro e he
-  have hmem := mem_names_mergeFields (fs := wConnLine rc g ++ wLenFields g ++ wRest rc g) he
+  have hmem := mem_names_mergeFields (fs := wConnLine rc g ++ wLenFields rc g ++ wRest rc g) he
   rw [List.map_append, List.map_append, List.mem_append, List.mem_append] at hmem
   rcases hmem with (h | h) | h
   · rw [wConnLine_names rc g _ h]; decide
-  · rcases wLenFields_names g _ h with h | h | h <;> rw [h] <;> decide
+  · rcases wLenFields_names rc g _ h with h | h | h <;> rw [h] <;> decide
   · unfold wRest lowerFields at h
     simp only [List.map_map, List.mem_map, Function.comp] at h
     obtain ⟨e', _, hk⟩ := h
     rw [← hk]
     exact lower_idem _
 
-theorem wLenFields_eq (g : GoResp) :
-    wLenFields g =
-      if wChunked g then (Name.transferEncoding, [Name.chunked]) ::
+theorem wLenFields_eq (rc : ReqCtx) (g : GoResp) :
+    wLenFields rc g =
+      if wChunked rc g then (Name.transferEncoding, [Name.chunked]) ::
         (if g.trailer.isEmpty then []
-         else [(Name.trailer, [Req.joinWith [44] (g.trailer.mergeSort C16.bytesLe).eraseDups])])
-      else if g.contentLength ≥ 0 then [(Name.contentLength, [natToDec g.contentLength.toNat])]
+         else [(Name.trailer, [Req.joinWith [44] (trailerKeys g)])])
+      else if wLen rc g ≥ 0 then [(Name.contentLength, [natToDec (wLen rc g).toNat])]
       else [] := by
   unfold wLenFields
   rw [lit_transfer_encoding, lit_chunked, lit_trailer, lit_content_length]
   rfl
 
-theorem valsOf_wLenFields_TE (g : GoResp) :
-    valsOf (wLenFields g) Name.transferEncoding = if wChunked g then [Name.chunked] else [] := by
+theorem valsOf_wLenFields_TE (rc : ReqCtx) (g : GoResp) :
+    valsOf (wLenFields rc g) Name.transferEncoding = if wChunked rc g then [Name.chunked] else [] := by
   rw [wLenFields_eq]
   split
   · split
@@ -428,9 +431,9 @@ theorem valsOf_wLenFields_TE (g : GoResp) :
       simp [valsOf_cons, valsOf_nil, this]
     · rfl
 
-theorem valsOf_wLenFields_CL (g : GoResp) :
-    valsOf (wLenFields g) Name.contentLength =
-      if wChunked g then [] else if g.contentLength ≥ 0 then [natToDec g.contentLength.toNat] else [] := by
+theorem valsOf_wLenFields_CL (rc : ReqCtx) (g : GoResp) :
+    valsOf (wLenFields rc g) Name.contentLength =
+      if wChunked rc g then [] else if wLen rc g ≥ 0 then [natToDec (wLen rc g).toNat] else [] := by
   rw [wLenFields_eq]
   have h1 : ¬ Name.transferEncoding = Name.contentLength := by decide
   have h2 : ¬ Name.trailer = Name.contentLength := by decide
@@ -456,8 +459,8 @@ theorem valsOf_wConnLine_ne {m : Bytes} (h : m ≠ Name.connection) : valsOf (wC
   valsOf_eq_nil_of_not_mem fun hm => h (wConnLine_names rc g _ hm)
 
 theorem valsOf_writeFull_TE (hc : CanonKeys (pipeHeader rc g)) (hn : NodupKeys (pipeHeader rc g)) :
-    valsOf (writeFull rc g).fields Name.transferEncoding = if wChunked g then [Name.chunked] else [] := by
-  show valsOf (mergeFields (wConnLine rc g ++ wLenFields g ++ wRest rc g)) _ = _
+    valsOf (writeFull rc g).fields Name.transferEncoding = if wChunked rc g then [Name.chunked] else [] := by
+  show valsOf (mergeFields (wConnLine rc g ++ wLenFields rc g ++ wRest rc g)) _ = _
   rw [valsOf_mergeFields, valsOf_append, valsOf_append, valsOf_wConnLine_ne (by decide),
     valsOf_wLenFields_TE]
   have : valsOf (wRest rc g) Name.transferEncoding = [] := by
@@ -468,8 +471,8 @@ theorem valsOf_writeFull_TE (hc : CanonKeys (pipeHeader rc g)) (hn : NodupKeys (
 
 theorem valsOf_writeFull_CL (hc : CanonKeys (pipeHeader rc g)) (hn : NodupKeys (pipeHeader rc g)) :
     valsOf (writeFull rc g).fields Name.contentLength =
-      if wChunked g then [] else if g.contentLength ≥ 0 then [natToDec g.contentLength.toNat] else [] := by
-  show valsOf (mergeFields (wConnLine rc g ++ wLenFields g ++ wRest rc g)) _ = _
+      if wChunked rc g then [] else if wLen rc g ≥ 0 then [natToDec (wLen rc g).toNat] else [] := by
+  show valsOf (mergeFields (wConnLine rc g ++ wLenFields rc g ++ wRest rc g)) _ = _
   rw [valsOf_mergeFields, valsOf_append, valsOf_append, valsOf_wConnLine_ne (by decide),
     valsOf_wLenFields_CL]
   have : valsOf (wRest rc g) Name.contentLength = [] := by
@@ -482,8 +485,7 @@ end declared
 
 /-- D: the field lines written declare the framing used, to a reader that knows the request method -/
 theorem framing_declared {rc : ReqCtx} {o : OriginResp} {r : ClientResp} (hr : RulesOK rc)
-    (hm : rc.method ≠ Name.CONNECT) (h : processResponse rc o = .ok r)
-    (h1 : r.framing ≠ .unframed) (h2 : r.framing ≠ .unterminatedHead) : FramingDeclared rc.method r := by
+    (hm : rc.method ≠ Name.CONNECT) (h : processResponse rc o = .ok r) : FramingDeclared rc.method r := by
   obtain ⟨g, hread, hcase⟩ := processResponse_ok h
   obtain ⟨ok⟩ := readResponse_some hread
   obtain ⟨hc, hn⟩ := pipeHeader_canon_nodup hr ok.canon ok.nodup
@@ -491,12 +493,7 @@ theorem framing_declared {rc : ReqCtx} {o : OriginResp} {r : ClientResp} (hr : R
   · -- header-only: decided by method and status alone
     have hb : bodiless rc.method (writeHO rc g).status = true := by
       rw [← headerOnly_eq_bodiless]; exact hho
-    have hfr : (writeHO rc g).framing =
-        if g.trailer.isEmpty then Framing.none else Framing.unterminatedHead := rfl
-    unfold FramingDeclared
-    split at hfr
-    · rw [hfr]; exact bodyKind_bodiless _ hb
-    · exact absurd hfr h2
+    exact bodyKind_bodiless _ hb
   · have hb : bodiless rc.method (writeFull rc g).status = false := by
       rw [← headerOnly_eq_bodiless]; exact hho
     have hTE := fieldValues_norm (names_lower_writeFull (rc := rc) (g := g)) Name.transferEncoding
@@ -505,21 +502,18 @@ theorem framing_declared {rc : ReqCtx} {o : OriginResp} {r : ClientResp} (hr : R
     rw [valsOf_writeFull_CL hc hn] at hCL
     have hfr : (writeFull rc g).framing = wFraming rc g := rfl
     unfold FramingDeclared
-    rw [hfr] at h1 ⊢
-    unfold wFraming at h1 ⊢
-    by_cases hch : wChunked g = true
+    rw [hfr]
+    unfold wFraming
+    by_cases hch : wChunked rc g = true
     · simp only [hch, if_true] at hTE ⊢
       exact bodyKind_chunked hb hm (by rw [hTE]; decide)
-    · simp only [hch, Bool.false_eq_true, if_false] at hTE hCL h1 ⊢
-      by_cases hlen : g.contentLength ≥ 0
+    · simp only [hch, Bool.false_eq_true, if_false] at hTE hCL ⊢
+      by_cases hlen : wLen rc g ≥ 0
       · simp only [hlen, if_true] at hCL ⊢
         refine bodyKind_len hb hm (by rw [hTE]; rfl) (by rw [hCL]; rfl) ?_
         rw [trimOWS_natToDec, parseDec_natToDec]
-      · simp only [hlen, if_false] at hCL h1 ⊢
-        by_cases hcl : wClose rc g = true
-        · simp only [hcl, if_true]
-          exact bodyKind_eof hb hm (by rw [hTE]; rfl) (by rw [hCL]; rfl)
-        · simp [hcl] at h1
+      · simp only [hlen, if_false] at hCL ⊢
+        exact bodyKind_eof hb hm (by rw [hTE]; rfl) (by rw [hCL]; rfl)
 
 end Resp
 end FwdVerif
